@@ -145,7 +145,10 @@ func init() {
 			job(sc(sim.BoundaryEntitiesCfg("c02-boundary-64-entities-cap1", 62, 4, 1, fBNew|fBRem|fRet, oBasic).P("C02")), pick(tier, 3, 4), 0.5),
 			job(sc(sim.BoundaryEntitiesCfg("c02-boundary-128-entities", 124, 4, 128, fBNew|fBRem|fReset, oBasic).P("C02")), pick(tier, 4, 5), 0.5),
 			// handles across DumpEntities / LoadEntities (lock-step pair, also decided by C17)
-			job(scAny(&sim.PairCfg{ID: "c02-ent-k5-dumpload", Base: func() *sim.Cfg { c := sim.EntCfg("c02-ent-k5-dumpload/base", 5, 1, fBNew|fBRem, oBasic); return c.P("C02") }(), Prop: "C02", Load: true}), pick(tier, 7, 10), 1),
+			job(scAny(&sim.PairCfg{ID: "c02-ent-k5-dumpload", Base: func() *sim.Cfg {
+				c := sim.EntCfg("c02-ent-k5-dumpload/base", 5, 1, fBNew|fBRem, oBasic)
+				return c.P("C02")
+			}(), Prop: "C02", Load: true}), pick(tier, 7, 10), 1),
 		}
 	}, acceptProps("C02", "C17"))
 
